@@ -4,5 +4,5 @@ From Coq Require Import ZArith NArith List String.
 From RC Require Import model.CliTypesC15 gen.C15Consts model.CacheC15 model.CliFlowC15.
 Extraction Language OCaml.
 Extraction "../build/ocaml/C15/model.ml" N.succ Z.succ Pos.succ Nat.add
-  toy_sha meta_of_table adv_of do_download resolve scan scan_page w0 crashed
+  toy_sha meta_of_table adv_of do_download resolve scan scan_page repo_get_dist multi_get_dist w0 crashed
   run_cli run_bzl script_of default_retries.
